@@ -18,6 +18,10 @@ tf = spec.text_form
 TEXTS = Fork([Xl('Text', 'str'), Prim('str', label='native str')])
 TEXTLIKE = Fork([Xl('Text', 'str'), Prim('str', label='native str'), Xl('Number', 'int', domain=[0, 7, -12, 100]),
                  Xl('Boolean', 'bool'), XlBlank()])
+# for the case functions: representative texts incl. letters whose lower case is not their case-folded form
+CASE_DOM = ['', 'abc', 'Hello World', 'Straße µg ﬁn ς', 'naïve café', 'ÀÉ']
+CASELIKE = Fork([Xl('Text', 'str', domain=CASE_DOM), Prim('str', label='native str', domain=CASE_DOM), Xl('Number', 'int', domain=[0, 7, -12, 100]),
+                 Xl('Boolean', 'bool'), XlBlank()])
 CNT_DOM = [-2, -1, 0, 1, 2, 3, 5, 6, 7, 12]
 COUNTS = Fork([Xl('Number', 'int', domain=CNT_DOM), Prim('int', domain=CNT_DOM, label='native int'),
                Xl('Number', 'real', domain=[-1.5, -0.5, 0.0, 0.5, 1.0, 2.5, 3.0, 6.9])])
@@ -42,10 +46,10 @@ UNITS = []
 UNITS.append(unit('LEN', [('text', TEXTLIKE)], [
     Case('LEN=length of the text form', lambda text: True, lambda text, out: spec.is_number(out, S.length(tf(text))))],
     canary=Case('canary', lambda text: True, lambda text, out: spec.is_number(out, S.length(tf(text)) + 1))))
-UNITS.append(unit('UPPER', [('text', TEXTLIKE)], [
+UNITS.append(unit('UPPER', [('text', CASELIKE)], [
     Case('UPPER=upper-cased text', lambda text: True, lambda text, out: spec.is_text(out, M.UPPER(tf(text))))],
     canary=Case('canary', lambda text: True, lambda text, out: spec.is_text(out, M.LOWER(tf(text))))))
-UNITS.append(unit('LOWER', [('text', TEXTLIKE)], [
+UNITS.append(unit('LOWER', [('text', CASELIKE)], [
     Case('LOWER=lower-cased text', lambda text: True, lambda text, out: spec.is_text(out, M.LOWER(tf(text))))]))
 UNITS.append(unit('EXACT', [('text1', TEXTLIKE), ('text2', TEXTLIKE)], [
     Case('EXACT=case-sensitive equality', lambda a, b: True, lambda a, b, out: spec.is_bool(out, spec.eq(tf(a), tf(b))))],
